@@ -1037,3 +1037,94 @@ Proof.
     destruct (bstep_WF _ _ _ W Eb) as (W1 & E1). destruct (IH _ _ W1 H) as (W2 & E2).
     split; [exact W2|eapply ext_trans; eassumption].
 Qed.
+
+(* ------------------------------------------------------------------------------------------ *)
+(* the union result is itself a stable bijection, and stores every lexical quad once            *)
+Lemma insert_quad_nodup : forall x q, NoDup (iquads x) -> NoDup (iquads (insert_quad x q)).
+Proof.
+  intros x q H. unfold insert_quad. destruct (contains_quad x q) eqn:E; cbn [iquads]; [exact H|].
+  constructor; [|exact H]. intros Hin. apply contains_quad_in in Hin. congruence.
+Qed.
+
+Lemma fold_insert_nodup : forall qs x, NoDup (iquads x) -> NoDup (iquads (fold_left insert_quad qs x)).
+Proof.
+  induction qs as [|q r IH]; intros x H; cbn [fold_left]; [exact H|]. apply IH. apply insert_quad_nodup. exact H.
+Qed.
+
+Lemma union_graphs_quads : forall fuel src gs ts x ts' x',
+  union_graphs fuel src gs ts x = Ok (ts', x') -> iquads x' = iquads x.
+Proof.
+  intros fuel src. induction gs as [|g r IH]; intros ts x ts' x' H; cbn [union_graphs] in H.
+  - injection H as <- <-. reflexivity.
+  - destruct (reencode fuel src g ts) as [[g1 ts1]|]; [|discriminate]. rewrite (IH _ _ _ _ H). reflexivity.
+Qed.
+
+Lemma union_quads_nodup : forall fuel src qs ts x ts' x',
+  NoDup (iquads x) -> union_quads fuel src qs ts x = Ok (ts', x') -> NoDup (iquads x').
+Proof.
+  intros fuel src. induction qs as [|[[[a b] c] g] r IH]; intros ts x ts' x' Hn H; cbn [union_quads] in H.
+  - injection H as <- <-. exact Hn.
+  - destruct (reencode3 fuel src (a, b, c) ts) as [[[[a' b'] c'] ts1]|]; [|discriminate].
+    destruct (reencode_graph fuel src g ts1) as [[g' ts2]|]; [|discriminate].
+    eapply IH; [|exact H]. apply insert_quad_nodup. exact Hn.
+Qed.
+
+Lemma union_index_nodup : forall a b u, union a b = Ok u -> NoDup (iquads (dix u)).
+Proof.
+  intros a b u H. unfold union in H.
+  destruct (reencode_all _ _ _ (mkT (dst a) [])) as [ts1|]; [|discriminate].
+  destruct (reencode_all _ _ _ ts1) as [ts2|]; [|discriminate].
+  destruct (union_graphs _ _ _ ts2 _) as [[ts3 x1]|] eqn:R3; [|discriminate].
+  destruct (union_quads _ _ _ ts3 x1) as [[ts4 x2]|] eqn:R4; [|discriminate].
+  destruct (union_seeds _ _ _ ts4 _) as [[ts5 sds]|]; [|discriminate].
+  injection H as <-. cbn [dix].
+  eapply union_quads_nodup; [|exact R4]. rewrite (union_graphs_quads _ _ _ _ _ _ _ R3).
+  apply fold_insert_nodup.
+  destruct (fold_create_spec (named_graphs (dix a)) ix_new) as [-> _]. constructor.
+Qed.
+
+Lemma den3_inj' : forall s k k' t, BInv s -> den3 s k t -> den3 s k' t -> k = k'.
+Proof.
+  intros s [[a b] c] [[a' b'] c'] [[ta tb] tc] Hb (H1 & H2 & H3) (G1 & G2 & G3).
+  rewrite (denotes_inj _ _ _ _ Hb H1 G1), (denotes_inj _ _ _ _ Hb H2 G2), (denotes_inj _ _ _ _ Hb H3 G3). reflexivity.
+Qed.
+
+Lemma denq_inj : forall s q q' l, BInv s -> denq s q l -> denq s q' l -> q = q'.
+Proof.
+  intros s [[[a b] c] g] [[[a' b'] c'] g'] [[[ta tb] tc] tg] Hb [H3 Hg] [G3 Gg].
+  pose proof (den3_inj' _ _ _ _ Hb H3 G3) as E. injection E as -> -> ->.
+  destruct g as [n|], g' as [n'|], tg as [t|]; cbn [deng] in *; try contradiction; [|reflexivity].
+  rewrite (denotes_inj _ _ _ _ Hb Hg Gg). reflexivity.
+Qed.
+
+Lemma okmap_nodup : forall {A B} (f : A -> res B) l,
+  NoDup l -> (forall x y z, In x l -> In y l -> f x = Ok z -> f y = Ok z -> x = y) -> NoDup (okmap f l).
+Proof.
+  intros A B f. induction l as [|a r IH]; intros Hn Hinj; cbn [okmap]; [constructor|].
+  inversion Hn as [|a' r' Hnotin Hn']; subst.
+  assert (NoDup (okmap f r)) as Hr.
+  { apply IH; [exact Hn'|]. intros x y z Hx Hy. apply Hinj; right; assumption. }
+  destruct (f a) as [b|e] eqn:Ef; [|exact Hr].
+  constructor; [|exact Hr]. intros Hin. apply okmap_in in Hin. destruct Hin as (x & Hx & Hfx).
+  assert (a = x) by (eapply Hinj; [left; reflexivity|right; exact Hx|exact Ef|exact Hfx]). subst x. contradiction.
+Qed.
+
+Theorem union_result_identity : forall a b u, WF a -> WF b -> union a b = Ok u ->
+  (forall i j t, decode_any (dst u) i = Ok t -> decode_any (dst u) j = Ok t -> i = j) /\
+  (forall i t, decode_any (dst u) i = Ok t -> encode_term (dst u) t = Ok (dst u, i)) /\
+  (forall i t, decode_any (dst a) i = Ok t -> decode_any (dst u) i = Ok t) /\
+  (forall k i, q_get (sq (dst u)) k = Some i <-> q_decode (sq (dst u)) i = Some k) /\
+  NoDup (den_quads u).
+Proof.
+  intros a b u Wa Wb H.
+  destruct (union_correct _ _ _ Wa Wb H) as ((Su & _) & Ea & _).
+  pose proof Su as [Bu _]. destruct Wa as (Sa & _).
+  split; [|split; [|split; [|split]]].
+  - intros i j t Hi Hj. apply decode_term_sound in Hi. apply decode_term_sound in Hj. eapply denotes_inj; eassumption.
+  - intros i t Hi. apply decode_term_sound in Hi. apply encode_term_known; assumption.
+  - intros i t Hi. apply decode_term_sound in Hi. apply decode_any_complete; [exact Su|]. eapply denotes_ext; eassumption.
+  - destruct Bu as [_ (Hq & _)]. exact Hq.
+  - unfold den_quads, all_quads. apply okmap_nodup; [eapply union_index_nodup; exact H|].
+    intros x y z _ _ Hx Hy. apply (decode_quad_iff _ _ _ Su) in Hx. apply (decode_quad_iff _ _ _ Su) in Hy.
+    eapply denq_inj; eassumption.
+Qed.
